@@ -17,7 +17,7 @@ var (
 
 func main() {
 	if len(os.Args) < 2 {
-		fmt.Fprintln(os.Stderr, "usage: evyvc check|dump|list ...")
+		fmt.Fprintln(os.Stderr, "usage: evyvc check|dump|list|replay ...")
 		os.Exit(2)
 	}
 	if d := os.Getenv("EVYVC_VERIF"); d != "" {
@@ -33,6 +33,8 @@ func main() {
 		os.Exit(cmdDump(os.Args[2:]))
 	case "list":
 		os.Exit(cmdList(os.Args[2:]))
+	case "replay":
+		os.Exit(cmdReplay(os.Args[2:]))
 	default:
 		fmt.Fprintln(os.Stderr, "unknown command", os.Args[1])
 		os.Exit(2)
